@@ -199,7 +199,10 @@ CLAIMED = {
              "every combination of the four whitespace options, prefixes, delimiters, none) overlays of fresh and used "
              "Environment/Template roots, siblings, chains, parents re-used, random histories; at every use plain sources "
              "with all three line breaks must render as the lexer model says for the options in effect and as a fresh "
-             "Environment does.",
+             "Environment does. Environments with a finalize callable (plain, @pass_context, @pass_eval_context, "
+             "@pass_environment) that alters strings (strip, upper, escape, placeholder for empty, wrap), set by "
+             "Environment(finalize=), overlay(finalize=) or Template(..., finalize=): plain text, text around comments and "
+             "raw-block bodies must still render as the lexer model says (finalize is for expression results only).",
         note="Trusted: Lean kernel; lexer model hand scanners (differentially validated); parser/compiler path for data-only "
              "templates is end-to-end only.",
         design_ref="§5 C11",
